@@ -529,6 +529,12 @@ def run(ctx, args):
                     "observed": {k: r["obs"][k] for k in ("exit", "diag", "crash", "files")},
                     "broken": judged[r["id"]], "accepted_by_layer_A": r["id"] in acc})
     slow_runs = [r for r in u.runs if r["obs"].get("slow")]
+    # layer B: the mechanisms the model has for each rule ("!" = the run they produce is not allowed by layer A)
+    per_rule = collections.defaultdict(set)
+    for c in cases:
+        if c.get("b") and c["case"]["kind"] in ("idl", "cmd"):
+            per_rule[c["case"]["rule"]].add(c["b"]["mech"] + ("" if c["b"]["conforms"] else "!"))
+    per_rule = {r: sorted(v) for r, v in per_rule.items()}
     ctx.extra_cov.update({
         "cases_generated": len(cases), "runs": len(u.runs), "distinct_programs": len(u.progs),
         "rejected_by_layer_A": len(confirmed), "rejected_classes": dict(vclasses),
@@ -538,6 +544,9 @@ def run(ctx, args):
         "layer_B_candidates": sorted({"%s -> %s" % ("+".join(case_rules(c)), c["b"]["mech"]) for c in cases
                                       if c.get("b") and not c["b"]["conforms"]}),
         "rules": sorted({r for c in cases for r in case_rules(c)}),
+        "layer_B_mechanisms_per_rule": per_rule,
+        "rules_without_a_firing_mechanism_in_the_model": sorted(r for r in per_rule if not any(
+            m.split(" ")[0] not in ("ok",) and not m.endswith("!") for m in per_rule[r])),
     })
     if drift:
         for k, n in sorted(drift.items()):
